@@ -613,6 +613,8 @@ def _absorb(scn, agg, r):
         agg.setdefault("opfam", {})[k] = agg.get("opfam", {}).get(k, 0) + v
     agg["schedules"].add(r["schedule"])
     agg["steps_total"] += r["steps"]
+    if r.get("wall_s", 0) > 20:
+        agg.setdefault("slow_runs", []).append([r["run_seed"], r.get("arm"), round(r["wall_s"], 1)])
     s = r.get("stats") or {}
     for k, v in (s.get("faults") or {}).items():
         d = agg["faults"].setdefault(k, {"configured": 0, "fired": 0})
@@ -653,6 +655,7 @@ def write_evidence(scn, tier, seed, agg, distinct_unlisted, known_hit, wall_s, s
             "distinct_states": len(agg["states"]),
             "probes": agg["probes"],
             "arms": agg["arms"],
+            "slow_runs": agg.get("slow_runs", [])[:20],
             "operations_executed": dict(sorted(agg.get("opfam", {}).items(), key=lambda kv: (-kv[1], kv[0]))),
             "inconclusive": agg["inconclusive"],
             "harness_errors": len(agg["harness_errors"]),
